@@ -4,7 +4,7 @@
     rounding is not modelled), Python ints are [Z]; [Err] results are Python
     exceptions.  All statements quantify over ALL rationals / integers. *)
 From Coq Require Import ZArith QArith Qround Qabs List Bool Lia.
-From OG Require Import Base.Result Model.Roi Model.MathH
+From OG Require Import Base.Result Model.Roi Model.MathH Model.MathHCases (* cases: only so that the check's build closure keeps them fresh *)
   Proofs.RoiProofs Proofs.MathHBasics Proofs.MathHSnap Proofs.MathHScale Proofs.MathHMisc Proofs.MathHLinear.
 Import ListNotations.
 Open Scope Q_scope.
@@ -326,6 +326,16 @@ Theorem C20_decompose_rws_exec :
     m00 W == 1 /\ m10 W == 0 /\ m11 W == 1 /\ m01 Sm == 0 /\ m10 Sm == 0.
 Proof. exact decompose_rws_exec_spec. Qed.
 Print Assumptions C20_decompose_rws_exec.
+
+(** resolution_from_affine: the diagonal for scale+translation transforms, the
+    scale part of the decomposition otherwise *)
+Theorem C20_resolution_from_affine :
+  forall (A : aff) (tol : Q),
+    (is_affine_st A tol = true -> resolution_from_affine A tol = Ok (aa A, ae A)) /\
+    (forall rx ry, is_affine_st A tol = false -> resolution_from_affine A tol = Ok (rx, ry) ->
+       exists R W Sm, decompose_rws (mkM (aa A) (ab A) (ad A) (ae A)) = Ok (R, W, Sm) /\ rx = m00 Sm /\ ry = m11 Sm).
+Proof. intros; split; [apply resolution_from_affine_st | intros; eapply resolution_from_affine_rotated; eauto]. Qed.
+Print Assumptions C20_resolution_from_affine.
 
 (** ** affine fit: the exact least-squares (normal equation) solution reproduces
     any affine map from points whose normal matrix is invertible *)
